@@ -9,7 +9,8 @@ RULE = ("honest statements (N<=3 on p=23/2039/16-bit, N<=2 at 62 bits, N=1 at 20
         "combination in {0..N+1}^5 for N<=2 (quick) / N<=3 (thorough), replays against different inputs/outputs/pk/generators/label, "
         "every per-ciphertext component altered one at a time at N in {20,37} (thorough: up to 130) on the 62-bit set; mismatched |e'|, N=0, and the algebraic forgery family with omitted chain proofs (non-permutation matrix M=[[2,-1],[-1,2]]); "
         "every decision compared with the Gallina verifier, which recomputes both challenges from the complete statement; "
-        "at >=62 bits an accepted mutant is a failing input by itself")
+        "at >=62 bits an accepted mutant is a failing input by itself"
+        " Added in session 3: pairs of alterations that cancel in a product/sum of the per-ciphertext equations; one Shuffler value over a sequence of statements; an accepted proof offered again under another key / other generators in the same process;")
 
 
 def forge_no_chain(ctx, sp, r):
